@@ -2,7 +2,6 @@ package c20
 
 import (
 	"fmt"
-	"math/rand"
 	"os"
 	"strconv"
 	"testing"
@@ -16,19 +15,12 @@ func TestC20One(t *testing.T) {
 		t.Skip("debugging aid")
 	}
 	spec := caseSpec{Kind: "DoMulti", seed: sd}
-	rng := rand.New(rand.NewSource(spec.seed))
-	spec.Shards = 2 + rng.Intn(5)
-	spec.Pipelined = rng.Intn(2) == 0
-	w, err := newWorld(spec.Shards, spec.seed, 0, rng.Intn(2) == 0, spec.Pipelined)
+	if k := os.Getenv("VERIF_C20_CASE_KIND"); k != "" {
+		spec.Kind = k
+	}
+	w, items, err := prepareCase(&spec)
 	if err != nil {
 		t.Fatal(err)
-	}
-	var items []item
-	if spec.Kind == "DoMulti" && spec.Shards >= 3 && rng.Intn(6) == 0 {
-		items = w.genMixedRedirect(rng, &spec)
-	} else {
-		items = genBatch(rng, &spec)
-		w.injectFaults(rng, &spec, items)
 	}
 	ok, _ := w.runBatch(&spec, items, func(done chan struct{}) bool {
 		select {
